@@ -206,6 +206,20 @@ Fixpoint delivered_upto (cs : list chunk) (n : nat) : list text :=
       if Nat.leb len n then p :: delivered_upto r (n - len) else []
   end.
 
+(* One fetch of LocalBackend for one trial, with the worker running concurrently.
+   The worker's life is a sequence of snapshots (characters of the final text
+   [render cs] written so far, process exited?).  A fetch makes two reads at
+   two moments i <= j of that sequence.  _all_trial_results reads the process
+   status FIRST (moment i) and std.out AFTER it (moment j). *)
+Record snapshot := { sn_written : nat; sn_exited : bool }.
+Definition snap0 : snapshot := {| sn_written := O; sn_exited := false |}.
+
+Definition fetch_status_then_text (cs : list chunk) (tr : list snapshot) (i j : nat) : bool * list text :=
+  (sn_exited (nth i tr snap0), poll_model (firstn (sn_written (nth j tr snap0)) (render cs))).
+(* the other order: std.out at moment i, status at moment j *)
+Definition fetch_text_then_status (cs : list chunk) (tr : list snapshot) (i j : nat) : bool * list text :=
+  (sn_exited (nth j tr snap0), poll_model (firstn (sn_written (nth i tr snap0)) (render cs))).
+
 (* ---- sender: Reporter ---------------------------------------------------- *)
 
 (* one call of the reporter with keyword arguments *)
